@@ -28,7 +28,7 @@ INTS = ('int1', 'int2', 'int3')
 
 
 def floors(tier):
-    return {'interpreted': 800, 'len:step_kinds': 5, 'len:join_kinds': 7, 'not_interpretable_pct_ok': 1}
+    return {'interpreted': 800, 'sibling_ctes_interpreted': 20, 'len:step_kinds': 5, 'len:join_kinds': 7, 'not_interpretable_pct_ok': 1}
 
 
 def ceilings(tier):
@@ -336,6 +336,9 @@ def run_shard(ctx):
         else:
             text, ordered, feats = fedgen.fed_query(r, single=False)
         kw, desc = fedgen.catalog(r, form=[0, 1, 2, 4][i % 4])
+        if 'sibling-ctes-of-one-name' in feats:
+            # a CTE name resolves in the default namespace: the catalog forms that give one
+            kw, desc = fedgen.catalog(r, form=[1, 2][(i // 40) % 2])
         states = [selgen.random_state(r, empty_prob=0.08) for _ in range(nstates)]
         bad = None
         for st in states:
@@ -347,6 +350,8 @@ def run_shard(ctx):
                     break
                 continue
             acc.count('interpreted')
+            if 'sibling-ctes-of-one-name' in feats:
+                acc.count('sibling_ctes_interpreted')
             acc.key(text, desc['form'])
             for f in feats:
                 if f.startswith('join:'):
